@@ -296,7 +296,7 @@ Proof.
     assert (Hnames : forallb pname_ok names = true).
     { apply (anon_head_src _ _ _ EH). apply Forall_forall. intros x Hx. rewrite Forall_forall in Hok0.
       destruct (Hok0 x Hx) as [_ Hn]. exact Hn. }
-    destruct (anon_head_some (fun _ => false) eq_refl (fun _ nm => nm) _ _ _ EH) as (Hne & hd & -> & _).
+    destruct (anon_head_some (fun _ => false) eq_refl unit (fun _ nm => nm) (fun a _ => a) (fun _ _ => eq_refl) _ _ _ EH) as (Hne & hd & -> & _).
     assert (X1 : suffix r' (hd ++ r')) by (exists hd; reflexivity).
     destruct (p_expr f prec r') as [[body r'']| |] eqn:EQ; try discriminate. inversion H; subst.
     destruct (HE _ _ _ _ (suffix_n _ _ X1 Hok0) EQ) as [S1 X2].
